@@ -72,10 +72,33 @@ Loops (Model/Loop.v), state = the tuple of variables assigned in the body that e
           BODY ends in SCont state | SBrk state | SRet <result of the function>
           `try: return f(..) except E: H` with f declared "raises" (returning an option):
                                       match f .. with Some v => return v | None => H end
+          (a bare `raise` in H re-raises E; a call declared "raises" is Unsupported anywhere else)
+          `try: <effect> except E: H` with the effect declared raises=(E, <test that it succeeds>):
+                                      if <test> then [effect; rest] else [H; rest]
+Containers: a value of a spec["tuples"] type is a left-nested Coq product, t[k] (k a literal) its
+component; `a, _, c = pop(container)` / `x = pop(container)` for a callee in spec["pops"] binds the
+components of the value the spec gives and then updates the state variable holding the container
+(heapq.heappop on the model's sorted list: hd / tl).
+
+What a spec may declare, and what each declaration is trusted for (the equivalence theorems are
+about the generated text *under these readings*):
+   selfattrs   self.<attr> is this parameter of this type
+   calls / methods / attrs / binops
+               a library call or an operation on an abstract type is this parameter (keyword
+               arguments listed under "fixed" must be spelled exactly so in the source)
+   effects / pops
+               a method call statement updates this state variable in this way (library model)
+   assume_not_none
+               this Optional expression is an int wherever it is used as one
+   skip_branches
+               the `if` branches with exactly these tests are not translated: reaching one gives RSkip
+   stop_after_loop
+               only the statements up to and including the first loop are translated
 """
 from __future__ import annotations
 
 import ast
+import re
 from pathlib import Path
 
 
@@ -1265,6 +1288,11 @@ def translate_all(repo: Path, specs, header=HEADER):
             fdef = find_function(trees[path], spec.get("cls"), spec["func"])
             tr = Tr(spec, known)
             text = tr.function(fdef)
+            # a definition that mentions a generated definition which could not be translated is not
+            # emitted either (Gen/Source.v must always compile: only the proofs about what is missing break)
+            for bad in errors:
+                if re.search(r"(?<![A-Za-z0-9_'])" + re.escape(bad) + r"(?![A-Za-z0-9_'])", text):
+                    raise Unsupported(f"uses {bad}, which was not translated")
             out.append(f"(* {spec['file']}: {(spec.get('cls') + '.') if spec.get('cls') else ''}{spec['func']} *)\n" + text)
             if spec["kind"] == "expr" and not spec.get("res"):
                 argtys = [t for _, t in spec["params"]]
